@@ -112,7 +112,8 @@ def sp_int_default(v, sp, dt):
     """Default / parameter value of an integer or BOOLEAN object."""
     if v < 0:
         return "-%d" % -v
-    return sp_uint(v, sp, pad=max(2, rc.width(dt) // 4))
+    # TIME_OF_DAY (0x0C) / TIME_DIFFERENCE (0x0D): 48-bit structures, number spellings padded like UNSIGNED48
+    return sp_uint(v, sp, pad=max(2, (48 if dt in (0x0C, 0x0D) else rc.width(dt)) // 4))
 
 
 def limit_forms(v, dt):
